@@ -16,6 +16,7 @@ import (
 	"strconv"
 	"strings"
 	"sync"
+	"sync/atomic"
 	"time"
 
 	"golang.org/x/tools/go/ssa"
@@ -51,6 +52,8 @@ func main() {
 		os.Exit(cmdCheck(os.Args[2:]))
 	case "dump":
 		os.Exit(cmdDump(os.Args[2:]))
+	case "replay":
+		os.Exit(cmdReplay(os.Args[2:]))
 	default:
 		fmt.Fprintln(os.Stderr, "unknown command", os.Args[1])
 		os.Exit(2)
@@ -111,6 +114,7 @@ func cmdCheck(args []string) int {
 	verbose := fs.Bool("v", false, "verbose")
 	noEvidence := fs.Bool("no-evidence", false, "do not write evidence")
 	fs.Parse(args)
+	verifDir = *verif
 	start := time.Now()
 	seed := 0
 	if s := os.Getenv("VERIF_SEED"); s != "" {
@@ -244,6 +248,7 @@ func cmdCheck(args []string) int {
 	}
 	// solve
 	results := make([]*Result, len(allObls))
+	var retries int32
 	var wg sync.WaitGroup
 	sem := make(chan struct{}, *par)
 	for i, o := range allObls {
@@ -253,7 +258,7 @@ func cmdCheck(args []string) int {
 			sem <- struct{}{}
 			defer func() { <-sem }()
 			r := solve(o, workdir, *timeout, *tier == "thorough")
-			if r.Verdict == "unknown" {
+			if r.Verdict == "unknown" && atomic.AddInt32(&retries, 1) <= 8 {
 				r2 := solve(o, workdir, *timeout*3, *tier == "thorough")
 				r2.Log = append(r.Log, r2.Log...)
 				r = r2
